@@ -699,39 +699,21 @@ func checkSingleSuccessExit(p *Prog, r *Report, rule string) {
 			return
 		}
 		n++
-		// every way to this return passes the insertion - or the "flow already held" edge of the map lookup, on which the
-		// record is the very object the map points to and is updated in place (re-storing the pointer is a no-op)
+		// every way to this return passes the insertion - or, for a flow already held, the aggregation into the record the
+		// map points to
 		okRet := dominates(ins, x)
 		if !okRet {
 			q := &pathQuery{noExit: true,
-				discharge: func(in ssa.Instruction) bool { return in == ins },
-				terminal:  func(in ssa.Instruction) bool { return in == x },
-				prune: func(from *ssa.BasicBlock, si int) bool {
-					i := ifOf(from)
-					if i == nil {
-						return false
+				// applied = inserted into the map (new flow), or aggregated into the record the map already points to
+				// (existing flow: the object is updated in place, re-storing the pointer is a no-op)
+				discharge: func(in ssa.Instruction) bool {
+					if in == ins {
+						return true
 					}
-					c, okSucc := i.Cond, 0
-					for {
-						u, isU := c.(*ssa.UnOp)
-						if !isU || u.Op != token.NOT {
-							break
-						}
-						c, okSucc = u.X, 1-okSucc
-					}
-					ex, isEx := c.(*ssa.Extract)
-					if !isEx || ex.Index != 1 {
-						return false
-					}
-					lk, isLk := ex.Tuple.(*ssa.Lookup)
-					if !isLk || !lk.CommaOk {
-						return false
-					}
-					if tn, fn, _, ok := loadedField(lk.X); !ok || tn+"."+fn != "pkg/intermediate.AggregationProcess.flowKeyRecordMap" {
-						return false
-					}
-					return si == okSucc
-				}}
+					c, ok := in.(*ssa.Call)
+					return ok && c.Call.StaticCallee() != nil && c.Call.StaticCallee().Name() == "aggregateRecords"
+				},
+				terminal: func(in ssa.Instruction) bool { return in == x }}
 			_, bad := q.findFromBlock(add.Blocks[0])
 			okRet = !bad
 		}
